@@ -73,6 +73,24 @@ class ZFn:
                     f = d2[1]["fields"][p["proj"][0]["i"]]
                     if f["k"] in ("copy", "move") and not f["p"]["proj"]: return s.ref_target(f["p"]["local"], depth + 1)
         return None
+    def place_ty(s, p):
+        """type of a local or of one field of a tuple local (None if not that simple)"""
+        ty = s.b["locals"][p["local"]]
+        for e in p["proj"]:
+            if e["k"] != "field" or not (ty.startswith("(") and ty.endswith(")")):
+                return None
+            parts, depth, cur = [], 0, ""
+            for ch in ty[1:-1]:
+                if ch in "<([": depth += 1
+                elif ch in ">)]": depth -= 1
+                if ch == "," and depth == 0:
+                    parts.append(cur.strip()); cur = ""
+                else:
+                    cur += ch
+            if cur.strip(): parts.append(cur.strip())
+            if e["i"] >= len(parts): return None
+            ty = parts[e["i"]]
+        return ty
     def canon(s, p, depth=0):
         """canonical key of a place holding a usize, or None"""
         proj = p["proj"]; l = p["local"]
@@ -212,6 +230,14 @@ class ZFn:
                     ns = []
                     for V in states: ns += assign(V, key, s.val_rvalue(st["rv"], V))
                     states = ns
+                elif st["rv"]["k"] == "agg" and st["rv"].get("agg") == "tuple" and not st["p"]["proj"]:
+                    # `_t = (a, b)`: the tracked components of the tuple take the operands' values
+                    for i, o in enumerate(st["rv"]["fields"]):
+                        ck = ("L", st["p"]["local"], i)
+                        if ck in keys:
+                            ns = []
+                            for V in states: ns += assign(V, ck, s.val_operand(o, V))
+                            states = ns
             t = bl["term"]
             if t is None: continue
             sinks(bb, "term", t, states, keys)
@@ -225,7 +251,17 @@ class ZFn:
                     if not vals: vals = {True, False}
                     if True in vals: tv.append(V)
                     if False in vals: fv.append(V)
-                if len(tm) == 1 and tm[0][0] == 0: succ = [(tm[0][1], fv), (t["otherwise"], tv)]
+                dl = t["discr"]
+                is_int = dl["k"] in ("copy", "move") and s.place_ty(dl["p"]) in ("usize", "isize", "u64", "u32", "u16", "u8", "u128")
+                if is_int:
+                    # `match n { 0 => .., _ => .. }` on an integer: the 0 arm sees n == 0, every other arm n != 0
+                    zs, nzs = [], []
+                    for V in states:
+                        vals = (s.val_operand(dl, V) & {"Z", "NZ"}) or {"Z", "NZ"}
+                        if "Z" in vals: zs.append(V)
+                        if "NZ" in vals: nzs.append(V)
+                    succ = [(x[1], zs if x[0] == 0 else nzs) for x in tm] + [(t["otherwise"], nzs if any(x[0] == 0 for x in tm) else states)]
+                elif len(tm) == 1 and tm[0][0] == 0: succ = [(tm[0][1], fv), (t["otherwise"], tv)]
                 else: succ = [(x[1], states) for x in tm] + [(t["otherwise"], states)]
             elif t["k"] == "call":
                 fn = t["func"].get("fn") or {}
@@ -402,6 +438,33 @@ def analyse(f, ARR, body, summaries, mode="sites", ret_pairs=None, ctor_sinks=No
             sink_sites.append((bi, "term", "return", None, None, b["span"]))
     if not sink_sites:
         return None
+    # integer `match` scrutinees that are copies of tracked values (`match (a, b) { (0, 0) => .., .. }`): track the copy so
+    # that the arm taken refines the original in the same valuation
+    for _ in range(3):
+        grew = False
+        for bl in b["blocks"]:
+            t = bl["term"]
+            if bl["cleanup"] or not t or t["k"] != "switch" or t["discr"]["k"] not in ("copy", "move"):
+                continue
+            dp = t["discr"]["p"]
+            if Z.place_ty(dp) != "usize" or len(tracked) >= 10:
+                continue
+            key = Z.canon(dp)
+            if key in tracked or key[0] != "L":
+                continue
+            src = None
+            ds = Z.defs.get(dp["local"], [])
+            if len(ds) == 1 and ds[0][0] == "rv":
+                rv = ds[0][1]
+                if not dp["proj"] and rv["k"] == "use":
+                    src = rv["o"]
+                elif len(dp["proj"]) == 1 and dp["proj"][0]["k"] == "field" and rv["k"] == "agg" and rv["agg"] == "tuple":
+                    src = rv["fields"][dp["proj"][0]["i"]]
+            if src is not None and src["k"] in ("copy", "move") and Z.canon(src["p"]) in tracked:
+                tracked.append(key)
+                grew = True
+        if not grew:
+            break
     found = []
 
     def sinks(bb, si, node, states, keys):
